@@ -386,6 +386,39 @@ def run(ctx):
             ctx.check("decoder-guards", "multi_tag_message/value-bounds", mm is None and a[0] == ("param", mt.path, 2), "a value is sliced only if start <= end <= len",
                       "value bounds guard differs from the reference: %s" % mm, mt.loc(bb))
     ctx.floor("decoder-guards", len(vs) + len(gets), 1, "value slice sites")
+    # what is stored for a field is the bytes between its offsets - for every tag: a value that is replaced by something else for some tags
+    # (padding "nobody reads") breaks decode(encode(m)) == m and canonical re-encoding while accepting exactly the same inputs
+    nstore = 0
+    for dfn in (mt, ctx.fn(MSG + "::single_tag_message")):
+        dev_ = W.ev(dfn.path)
+        bparam = next((i for i in range(1, dfn.nargs + 1) if dfn.locals[i]["ty"].replace(" ", "") in ("&[u8]",)), None)
+        for bb, t in dfn.calls():
+            if not strip_generics(t["fn"].get("path", "")).endswith("RtMessage::add_field"):
+                continue
+            nstore += 1
+            v = W.expand(dev_.call_args(bb)[2])
+            for _ in range(6):
+                v = values.strip_payload(v)
+                if is_call(v) and callee_name(v[1]) in values.VIEW_NAMES + ("to_vec", "to_owned", "into", "from", "clone", "as_slice", "deref", "as_ref") and v[2]:
+                    v = W.expand(v[2][0])
+                elif isinstance(v, tuple) and v and v[0] == "obj":
+                    ini = W.obj_init(v)
+                    if ini is None:
+                        break
+                    v = W.expand(ini)
+                else:
+                    break
+            okv = isinstance(v, tuple) and v and v[0] == "index" and bparam is not None and v[1] == ("param", dfn.path, bparam) and isinstance(v[2], tuple) and v[2][0] == "agg" and "Range" in str(v[2][1])
+            v_obj = values.strip_payload(W.expand(dev_.call_args(bb)[2]))
+            if not okv and isinstance(v_obj, tuple) and v_obj and v_obj[0] == "obj" and v_obj[1] == dfn.path:
+                # an empty vector filled once by reading the rest of the cursor (`msg.read_to_end(&mut value)`): the remaining bytes of the message
+                fills = [(b2, callee_name(c2), ai2) for (b2, c2, ai2, ap2) in dev_.events_on(v_obj[2])
+                         if dfn.blocks[b2].term["arg_tys"][ai2].startswith("&mut") and callee_name(c2) not in ("reserve", "reserve_exact")]
+                if len(fills) == 1 and fills[0][1] in ("read_to_end",) and fills[0][2] == 1 and "Cursor" in dfn.blocks[fills[0][0]].term["arg_tys"][0] and dfn.dominates(fills[0][0], bb):
+                    okv = True
+            ctx.check("decoder-guards", "%s/stored-value-is-the-sliced-bytes" % dfn.path.split("::")[-1], okv, "the value stored for a field is bytes[start..end]",
+                      "the value stored for a field is not always the bytes between its offsets: %s" % fmt(v)[:200], dfn.loc(bb))
+    ctx.floor("decoder-guards-stores", nstore, 2, "add_field calls in the two decoder functions")
     # tags read with read_exact, failure -> Err
     rex = [bb for bb, t in mt.calls() if callee_name(t["fn"].get("path", "")) == "read_exact"]
     for bb, a in dec_push:
